@@ -63,6 +63,15 @@ Example C02b_nonvacuous :
     length (r_banks r) = 2%nat /\ Forall OutputP.no_empty_emit (r_nodes r).
 Proof. exact assemble2_nonvacuous. Qed.
 
+(* a successful result holds no failed assertion in a constant, and every constant is its expression under the final state *)
+Theorem C02b_constant_not_failed : forall m banks defs mb ns1 s d0 e ctx ns2 st,
+  labels_ok2 (ns1 ++ (XConst s d0 e, ctx) :: ns2) st -> Certified2 m banks defs mb (ns1 ++ (XConst s d0 e, ctx) :: ns2) st ->
+  nth s (s_sym st) VUnknown <> VFailed /\
+  exists c0 p0 b pos loc,
+    walk banks mb ns1 st (Cursor.init_cursor banks) None = Ok (c0, p0) /\ visit banks mb (XConst s d0 e, ctx) c0 p0 = Ok (b, pos) /\
+    eval code_ops (pvar2 m st ctx (Cursor.eval_address mb b pos false) false) e [] = EOk (nth s (s_sym st) VUnknown, loc).
+Proof. exact certified2_const_not_failed. Qed.
+
 (* the executable checker run on the implementation's results decides the predicate of C02b_certificate *)
 Theorem C02b_checker_sound : forall indexed defs ps claimed banks out,
   cert_check2 indexed defs ps claimed banks out = true ->
